@@ -7,6 +7,7 @@
    Hypotheses: chunks_wf (C05), distinct chunk offsets, and ranges_ok (start <= end for every
    chunk index).  ranges_ok is implied by chunks_wf for chunks that hold a message; it is needed
    for message-less chunks, see C20_ex_bad_range. *)
+From Mcap Require ConstsTie LayoutTie. (* regenerated ties to /repo's source that this property's model relies on *)
 From Coq Require Import List NArith ZArith Bool Permutation Sorted.
 From Mcap Require Import Bytes GoSem Records Reader Iter.
 Import ListNotations.
